@@ -153,6 +153,11 @@ func decField(m kit.M) c05Field {
 	f.Name = c05Name{kit.Str(n["exact"]), kit.Str(n["snake"]), kit.Str(n["initial"])}
 	o := m["opts"].(kit.M)
 	f.Opts.Optional, f.Opts.Def, f.Opts.Str, f.Opts.Env = kit.Bool(o["optional"]), kit.Str(o["def"]), kit.Bool(o["str"]), kit.Str(o["env"])
+	if f.Opts.Env != "" {
+		// lib/proc caches an environment variable per NAME for the life of the process, so every
+		// distinct value lives in a variable of its own, set before any unmarshal can read it
+		os.Setenv(c05EnvPrefix+f.Opts.Env, f.Opts.Env)
+	}
 	for _, x := range kit.List(o["options"]) {
 		f.Opts.Options = append(f.Opts.Options, kit.Str(x))
 	}
@@ -1182,6 +1187,13 @@ func (rn *c05Runner) runRoundTrip(c *c05Case) (bads []*c05Bad, results []c05Resu
 // checkAxioms re-derives the numeric facts the specification takes as given.  A mismatch is an
 // error of the specification (Infra), never a verdict about the code.
 func checkAxioms(m kit.M) string {
+	exactBase := func(text string, base int) *big.Float {
+		f, _, err := big.ParseFloat(text, base, 4000, big.ToNearestEven)
+		if err != nil {
+			return nil
+		}
+		return f
+	}
 	exact := func(text string) *big.Float {
 		f, _, err := big.ParseFloat(text, 10, 4000, big.ToNearestEven)
 		if err != nil {
@@ -1207,16 +1219,30 @@ func checkAxioms(m kit.M) string {
 			continue
 		}
 		v, a := exact(text), exact(at)
+		if kit.Str(l["syn"]) == "go" { // the number the spelling denotes in Go syntax
+			v = exactBase(text, 0)
+			if _, err := strconv.ParseInt(text, 10, 64); err == nil {
+				return fmt.Sprintf("literal %s: marked as Go syntax but is a plain decimal", text)
+			}
+		}
 		if v == nil || a == nil || v.Cmp(a) != 0 || !isPoint[at] {
 			return fmt.Sprintf("literal %s: at=%s is not its value / not a point", text, at)
 		}
 		if v.IsInt() != kit.Bool(l["integral"]) {
 			return fmt.Sprintf("literal %s: integral=%v", text, l["integral"])
 		}
-		if kit.Str(l["syn"]) == "int" && text != at {
+		if kit.Str(l["syn"]) == "int" && kit.Str(l["class"]) == "num" && text != at {
 			return fmt.Sprintf("literal %s: int syntax but at=%s", text, at)
 		}
+		if kit.Str(l["syn"]) == "int" && text != at { // zero-padded: the decimal reading, digit for digit
+			if n, err := strconv.ParseInt(text, 10, 64); err != nil || strconv.FormatInt(n, 10) != at {
+				return fmt.Sprintf("literal %s: decimal reading is not %s", text, at)
+			}
+		}
 		for _, bits := range []int{32, 64} {
+			if kit.Str(l["syn"]) == "go" {
+				break
+			}
 			r, err := strconv.ParseFloat(text, bits)
 			if err != nil { // out of range of the float kind: exactness is not used
 				continue
